@@ -63,6 +63,15 @@ mpz_miller_rabin (mpz_srcptr n, int reps, gmp_randstate_t rnd)
   unsigned long int k;
   int is_prime;
   TMP_DECL;
+
+  /* The Fermat base 210 = 2*3*5*7 below and the witness range [2, n-2]
+     both need n > 7.  */
+  if (mpz_cmp_ui (n, 7L) <= 0)
+    {
+      mpir_ui s = mpz_get_ui (n);
+      return (mpz_sgn (n) > 0 && (s == 2 || s == 3 || s == 5 || s == 7));
+    }
+
   TMP_MARK;
 
   MPZ_TMP_INIT (nm1, SIZ (n) + 1);
